@@ -101,6 +101,11 @@ def _cases() -> list[tuple[str, dict]]:
         out.append((f"precondition_frequency={f},start_preconditioning_step={s}", {"precondition_frequency": f, "start_preconditioning_step": s}))
     for b1, b3 in itertools.product([0.0, 0.5, 1.0, -0.1, math.nan], [-1.0, 0.0, 0.5, 1.0, -0.5, 1.5, math.nan]):
         out.append((f"betas[0]={b1},beta3={b3}", {"betas": (b1, 0.92), "beta3": b3}))
+    # boolean switches combined with the values they interact with (a switch must not narrow the documented ranges)
+    for flag in ("use_nesterov", "use_bias_correction", "use_decoupled_weight_decay", "use_merge_dims"):
+        for mom, damp in itertools.product([0.0, 0.5, 0.9], [0.0, 0.5, 0.9]):
+            for fv in (True, False):
+                out.append((f"{flag}={fv},momentum={mom},dampening={damp}", {flag: fv, "momentum": mom, "dampening": damp}))
     seqs = [0, 1, 2, -1, [0], [2, 2], (1, 4), [], (0, 0), [1, -1], (-2,), [0, 0, 3]]
     for ig, ov in itertools.product([[], [0], [0, 1]], seqs):
         out.append((f"ignored_dims={ig},inv_root_override={ov!r}", {"preconditioner_config": SimpleNamespace(ignored_dims=list(ig)), "inv_root_override": ov}))
